@@ -3,6 +3,7 @@ package checks
 import (
 	"errors"
 	"fmt"
+	"github.com/cloudwego/gopkg/bufiox"
 	"io"
 
 	"github.com/cloudwego/gopkg/protocol/thrift"
@@ -44,7 +45,7 @@ func (e *typedErr) Error() string { return "transport: not open: " + e.cause.Err
 func (e *typedErr) TypeId() int32 { return 1 }
 func (e *typedErr) Unwrap() error { return e.cause }
 
-var termErrs = []error{io.EOF, io.ErrUnexpectedEOF, errX, fmt.Errorf("ctx: %w", errX), fmt.Errorf("conn reset while relaying: %w", thrift.NewProtocolException(thrift.INVALID_DATA, "upstream said so")), &typedErr{cause: errX}, fmt.Errorf("read tcp 10.0.0.1:8888: connection closed by peer: %w", io.EOF), srcTimeout{}, aggErr{errX, io.ErrClosedPipe}}
+var termErrs = []error{io.EOF, io.ErrUnexpectedEOF, errX, fmt.Errorf("ctx: %w", errX), fmt.Errorf("conn reset while relaying: %w", thrift.NewProtocolException(thrift.INVALID_DATA, "upstream said so")), &typedErr{cause: errX}, fmt.Errorf("read tcp 10.0.0.1:8888: connection closed by peer: %w", io.EOF), srcTimeout{}, aggErr{errX, io.ErrClosedPipe}, libOwnReadErr}
 
 // aggErr is an aggregate of errors whose dynamic type is NOT comparable (a slice): comparing two of them with == panics,
 // errors.Is does not (it asks the Is method).
@@ -74,7 +75,7 @@ func (srcTimeout) Error() string   { return "verif: i/o timeout on the source" }
 func (srcTimeout) Timeout() bool   { return true }
 func (srcTimeout) Temporary() bool { return true }
 
-var termErrNames = []string{"io.EOF", "io.ErrUnexpectedEOF", "errX", "wrapped(errX)", "wraps-a-protocol-exception", "typed-error-wrapping(errX)", "wrapped(io.EOF)", "timeout-error", "aggregate-of-a-non-comparable-type"}
+var termErrNames = []string{"io.EOF", "io.ErrUnexpectedEOF", "errX", "wrapped(errX)", "wraps-a-protocol-exception", "typed-error-wrapping(errX)", "wrapped(io.EOF)", "timeout-error", "aggregate-of-a-non-comparable-type", "an-error-value-made-by-the-library-itself"}
 
 // ---- EnvReader: harness-owned io.Reader (fault and fragmentation model, DESIGN 4.3) ----
 
@@ -117,9 +118,11 @@ type EnvReader struct {
 	Calls       int
 	BytesOut    int
 	ErrReturned bool
-	AfterErr    int // Read calls after the terminal error was returned
-	Need        int // > 0: the consumer needs only D[:Need]; a Read call issued once that much was delivered is "late"
-	LateCalls   int // (on a live connection it would block waiting for data the consumer has no use for)
+	AfterErr    int   // Read calls after the terminal error was returned
+	Need        int   // > 0: the consumer needs only D[:Need]; a Read call issued once that much was delivered is "late"
+	LateCalls   int   // (on a live connection it would block waiting for data the consumer has no use for)
+	Seeks       int   // calls of Seek (sources with Cfg.Len are seekable)
+	beyond      int64 // how far the last Seek went past the end
 
 	Ch     *mc.Chooser // per-call deviations for the first DevCalls calls (nil = none)
 	DevMax int
@@ -230,6 +233,35 @@ func (l *envReaderLen) WriteTo(w io.Writer) (int64, error) {
 			return total, err
 		}
 	}
+}
+
+// Seek: sources of this kind (files, bytes.Reader, strings.Reader, io.SectionReader) are usually seekable.  As with those,
+// seeking beyond the end is NOT an error - the next Read reports the end.  Bytes jumped over count as consumed from the
+// source, bytes given back by seeking backwards count as not consumed.
+func (l *envReaderLen) Seek(off int64, whence int) (int64, error) {
+	var abs int64
+	switch whence {
+	case io.SeekStart:
+		abs = off
+	case io.SeekCurrent:
+		abs = int64(l.pos) + l.beyond + off
+	case io.SeekEnd:
+		abs = int64(len(l.D)) + off
+	default:
+		return 0, errors.New("verif source: Seek: invalid whence")
+	}
+	if abs < 0 {
+		return 0, errors.New("verif source: Seek: negative position")
+	}
+	l.Seeks++
+	l.beyond = 0
+	if abs > int64(len(l.D)) {
+		l.beyond = abs - int64(len(l.D))
+		abs = int64(len(l.D))
+	}
+	l.pos = int(abs)
+	l.BytesOut = l.pos
+	return abs + l.beyond, nil
 }
 
 func (l *envReaderLen) Len() int {
@@ -343,7 +375,7 @@ func (timeoutErr) Unwrap() error   { return errSink }
 
 type EnvWriter struct {
 	FailAt     int // fail the k-th Write (1-based); 0 = never
-	Mode       int // how it fails: 0 (0, err); 1 (len(p), err) — everything was taken AND an error is reported; 2 (len(p)/2, timeout error)
+	Mode       int // how it fails: 0 (0, err); 1 (len(p), err) — everything was taken AND an error is reported; 2 (len(p)/2, timeout error); 3 (0, an error value made by the library itself)
 	Calls      int
 	Got        []byte   // concatenation of everything accepted
 	Chunks     [][2]int // (offset into Got, len) per accepted call
@@ -408,6 +440,34 @@ func (r *envWriterRich) ReadFrom(src io.Reader) (int64, error) {
 	}
 }
 
+// libOwnReadErr: what the library's reader answers to a negative count - as the error of a SOURCE (a source stacked on
+// another bufiox reader passes such values on).
+var libOwnReadErr = func() error {
+	_, err := bufiox.NewBytesReader([]byte{1}).Next(-1)
+	if err == nil {
+		return errX
+	}
+	return err
+}()
+
+// libOwnErr is an error value made by the LIBRARY itself (what its writer answers to a negative count): a sink that is
+// built on another bufiox writer passes such values on.  A sink error is a sink error whatever its identity.
+var libOwnErr = func() error {
+	_, err := bufiox.NewDefaultWriter(io.Discard).Malloc(-1)
+	if err == nil {
+		return errSink
+	}
+	return err
+}()
+
+// Err is the error this sink fails with (what callers must be able to match with errors.Is).
+func (w *EnvWriter) Err() error {
+	if w.Mode == 3 {
+		return libOwnErr
+	}
+	return errSink
+}
+
 func (w *EnvWriter) Write(p []byte) (int, error) {
 	if w.Hook != nil {
 		w.Hook()
@@ -421,6 +481,8 @@ func (w *EnvWriter) Write(p []byte) (int, error) {
 		case 2:
 			w.Got = append(w.Got, p[:len(p)/2]...)
 			return len(p) / 2, timeoutErr{}
+		case 3:
+			return 0, w.Err()
 		}
 		return 0, errSink
 	}
